@@ -197,7 +197,7 @@ def candidates(rng, objs, dead, opaque):
                 out.append(dict(op='Elements', a=a))
             S = sorted(rng.sample(range(d), rng.randint(1, d)))
             conj = rng.random() < 0.5
-            if conj and cplx:
+            if conj:
                 S = list(range(d))
             out.append(dict(op='Transpose', a=a, cores=S, all=len(S) == d, conj=conj, ow=rng.random() < 0.3))
             out.append(dict(op='RankTranspose', a=a, ow=rng.random() < 0.3))
